@@ -147,6 +147,17 @@ def own_c05(tier, seed, params):
             for fa, fb in ZIP_FORMS:
                 if "o" in (fa, fb) or "b" in (fa, fb):
                     out.append("op=zip form=%s form2=%s n=%d fault=call:%d" % (fa, fb, n, k))
+    # teardown of an intermediate value on a path that is not already unwinding: `try_from_iter` (stack and boxed)
+    # given too few or too many items drops what it had collected (and the surplus item) and returns `Err` — one of
+    # those destructors panics
+    for n in range(1, 6):
+        for cnt in sorted(set([1, n - 1, n + 1, n + 2])):
+            if cnt < 1 or cnt == n:
+                continue
+            script = "s" * cnt + "n"
+            for j in range(min(cnt, n + 1)):
+                for boxed in (0, 1):
+                    out.append("op=collect n=%d script=%s hint=0,none try=1 boxed=%d fault=dtor:%d" % (n, script, boxed, 500 + j))
     for n in (16, 17, 33):
         for (f, b) in ((0, n), (3, n - 2), (n // 2, n // 2 + 1)):
             for bad in ("none", "dtor:%d" % (f + 1), "dtor:%d" % b, "dtor:%d" % ((f + b) // 2 + 1)):
@@ -430,7 +441,7 @@ def hex_(tier, seed, params):
 
 
 HEAP_NS = [0, 1, 2, 3, 4, 5, 7, 8, 16, 17, 33, 256, 1024]
-HEAP_KINDS = ["u32", "u64", "b3", "unit", "tr", "z"]
+HEAP_KINDS = ["u32", "u64", "b3", "unit", "tr", "z", "z8"]
 
 
 def heap_c16(tier, seed, params):
@@ -464,8 +475,20 @@ def heap_c15(tier, seed, params):
                     out.append("op=%s n=%d l=%d kind=%s" % (op, n, l, kind))
             for op in ("into_boxed_slice", "into_vec", "from_ga_box_slice", "from_ga_vec", "box_into_iter"):
                 out.append("op=%s n=%d kind=%s" % (op, n, kind))
-    for op in ("big_default_boxed", "big_boxed_generate", "big_box_arr", "big_boxed_collect", "big_into_vec"):
+    for op in ("big_default_boxed", "big_boxed_generate", "big_box_arr", "big_boxed_collect", "big_into_vec",
+               "big_elems_boxed_generate", "big_elems_default_boxed", "big_elems16_boxed_generate", "big_elems_box_map"):
         out.append("op=%s" % op)
+    return out
+
+
+def heap_c01(tier, seed, params):
+    """boxed construction where the array's layout has size zero (N = 0, zero-sized elements) or not, for element
+    alignments 1..8: the address the box holds must be a multiple of the element alignment"""
+    out = []
+    for kind in HEAP_KINDS:
+        for n in (0, 1, 2, 3, 5, 8):
+            for op in ("boxed_generate", "default_boxed"):
+                out.append("op=%s n=%d kind=%s fault=none" % (op, n, kind))
     return out
 
 
@@ -580,6 +603,7 @@ def fill(tier, seed, params):
 
 
 ARR_LIST_KS = list(range(0, 65)) + [100, 128, 255, 256]
+ARR_REP_BEYOND = [1025, 1031, 1500, 3000]
 ARR_REP_NS = [0, 1, 2, 3, 4, 5, 6, 7, 8, 16, 17, 31, 32, 33, 64, 97, 255, 256, 1000, 1023, 1024]
 
 
@@ -626,6 +650,11 @@ def arrconst(tier, seed, params):
         out.append("op=constpos form=list k=%d trail=1 pos=const" % k)
         out.append("op=constpos form=list k=%d trail=0 pos=static" % k)
         out.append("op=constpos form=list k=%d trail=1 pos=constfn" % k)
+    # a typenum length of the repeat form is any `N: ArrayLength`, also one that has no `Const<N>` counterpart
+    # (beyond 1024 and not 2^k, 2^k - 1 or 10^k): reachable only through type-level arithmetic
+    for n in ARR_REP_BEYOND:
+        for pos in ("const", "static", "constfn"):
+            out.append("op=constpos form=repty n=%d pos=%s" % (n, pos))
     for n in ARR_REP_NS:
         for form in ("repty", "repconst"):
             out.append("op=constpos form=%s n=%d pos=const" % (form, n))
@@ -633,6 +662,11 @@ def arrconst(tier, seed, params):
                 out.append("op=constpos form=%s n=%d pos=static" % (form, n))
                 out.append("op=constpos form=%s n=%d pos=constfn" % (form, n))
     return out
+
+
+def arrconst_c18(tier, seed, params):
+    """`arr!` in const positions (C18 names it among the const API): the const-position lines of the C20 family"""
+    return [l for l in arrconst(tier, seed, params) if l.startswith("op=constpos")]
 
 
 CONST_SMALL = [0, 1, 2, 3, 4, 5, 7, 8]
